@@ -38,6 +38,9 @@ impl DeltaHeader {
     { unimplemented!() }
 }
 impl Delta {
+    spec fn update_data(&self, k: i32) -> Seq<i32> {
+        self.buf@.subrange(self.updated_items@[k].start as int, self.updated_items@[k].end as int)
+    }
     // every update range lies inside the delta's buffer
     spec fn wf(&self) -> bool {
         forall|k: i32| self.updated_items@.contains_key(k) ==>
@@ -95,4 +98,8 @@ pub uninterp spec fn spec_uuid(data: Seq<i32>) -> Option<Uuid>;
 #[verifier::external_body]
 fn item_data_to_uuid<W: Warn<Warning>>(warn: &mut W, data: &[i32]) -> (r: Option<Uuid>)
     ensures r == spec_uuid(data@),
+{ unimplemented!() }
+#[verifier::external_body]
+fn vx_extend_zeros(buf: &mut Vec<i32>, n: usize)
+    ensures (*final(buf))@ == (*old(buf))@ + Seq::new(n as nat, |i: int| 0i32),
 { unimplemented!() }
